@@ -324,6 +324,13 @@ func runCase1(input string) string {
 		hclText = hf.text
 	}
 	yamlText, _ := printYAML(d, rand.New(rand.NewSource(sx+1)), fancy)
+	if enc := m["enc"]; enc != "" {
+		// how the two files are saved (enc.go): CRLF line terminators, all or some
+		var ok bool
+		if hclText, yamlText, ok = encodeTexts(enc, hclText, yamlText, sx); !ok {
+			return "SLOW not run: unknown enc mode, or the printed texts carry a CR of their own"
+		}
+	}
 	dir := caseDir(input)
 	hname, yname, ok := fileNames(m)
 	if !ok {
@@ -501,6 +508,9 @@ func class(input, obs string) string {
 	}
 	if m["big"] != "" {
 		parts = append(parts, "large-file")
+	}
+	if m["enc"] != "" {
+		parts = append(parts, "saved-"+m["enc"])
 	}
 	if ff := m["ff"]; ff != "" {
 		parts = append(parts, "io-fault-"+strings.TrimRight(strings.Split(ff, "+")[0], "0123456789"))
@@ -976,6 +986,49 @@ func (g *gen) describe() *Node {
 	return nMap(g.shuffle(top))
 }
 
+// multiline: bodies / payloads of several lines that end in a line break (heredoc / literal block scalar material),
+// incl. blank lines, indented lines, lines that look like YAML or HCL syntax
+var wordsLines = []string{"{", "}", "  \"user_id\": {{.request.auth_req.preprocessor.user_id}},", "  indented: yes", "key: value", "- item", "a=1&b=2",
+	"<body/>", "line", "EOT2", "x = 1", "# not a comment", "${not.a.template}", "%{ if }", "строка", "日本語", "trailing", "\ttab", "|", ">", "---", "..."}
+
+func (g *gen) multiline(d *Node) {
+	text := func() string {
+		n := 2 + g.r.Intn(5)
+		var b strings.Builder
+		for i := 0; i < n; i++ {
+			b.WriteString(g.pick(wordsLines))
+			b.WriteString("\n")
+			if g.chance(10) {
+				b.WriteString("\n")
+			}
+		}
+		s := b.String()
+		if g.chance(15) {
+			s = strings.TrimSuffix(s, "\n")
+		}
+		return s
+	}
+	for _, key := range []struct{ list, field string }{{"request", "body"}, {"call", "payload"}} {
+		if l := d.get(key.list); l != nil {
+			for _, st := range l.L {
+				if !g.chance(75) {
+					continue
+				}
+				done := false
+				for i := range st.M {
+					if st.M[i].K == key.field {
+						st.M[i].V = nStr(text())
+						done = true
+					}
+				}
+				if !done {
+					st.M = append(st.M, KV{key.field, nStr(text())})
+				}
+			}
+		}
+	}
+}
+
 // enlarge: n more steps of the kind the description has; the last one is used by the first scenario (a file cut short
 // loses it)
 func (g *gen) enlarge(d *Node, n int) {
@@ -1232,7 +1285,11 @@ func generate(r *rand.Rand, tier string) []string {
 		if g.chance(8) {
 			co = "co=par"
 		}
-		out = append(out, line(r.Int63n(1<<40), mal, d, nb, names, co))
+		enc := ""
+		if g.chance(6) {
+			enc = "enc=" + g.pick(encModes)
+		}
+		out = append(out, line(r.Int63n(1<<40), mal, d, nb, names, co, enc))
 	}
 	// exhaustive small enumerations: all of them in the thorough tier, a random sample in the quick tier
 	k := 150
@@ -1284,6 +1341,24 @@ func generate(r *rand.Rand, tier string) []string {
 		d := g.describe()
 		g.enlarge(d, 80+r.Intn(220))
 		out = append(out, line(r.Int63n(1<<40), 0, d, "big=1"))
+	}
+	// how the files are SAVED (enc.go): CRLF line terminators (all / some / first / all but the first / one file only);
+	// the descriptions of this stream carry multi-line bodies and payloads, which the printers spell as heredocs and
+	// block scalars — the places where a line terminator of the FILE stands inside a value
+	ne := 140
+	if tier == "thorough" {
+		ne = 2500
+	}
+	for i := 0; i < ne; i++ {
+		d := g.describe()
+		if i%4 != 3 {
+			g.multiline(d)
+		}
+		sx := r.Int63n(1 << 40)
+		if i%3 == 0 {
+			sx = sx/3*3 + 2 // the fancy spelling (locals, heredocs in locals, literal block scalars)
+		}
+		out = append(out, line(sx, 0, d, "enc="+encModes[i%len(encModes)]))
 	}
 	// every pair of file names once
 	for _, p := range namePairs {
